@@ -18,6 +18,7 @@ type intrinsicFn func(e *Engine, st *State, fr *Frame, args []Value, in *ssa.Cal
 var intrinsics = map[string]intrinsicFn{}
 
 var intrinsicDoc = map[string]string{
+	"bytes.Repeat":                       "returns a fresh slice holding count copies of b (count >= 0)",
 	"bytes.Clone":                        "returns a fresh copy with equal contents",
 	"bytes.Equal":                        "true iff same length and contents",
 	"crypto/subtle.ConstantTimeCompare":  "1 iff same length and contents",
@@ -278,6 +279,25 @@ func init() {
 		st.assume(mkImplies(eq, mkApp("oidwf", SBool, e.dynArr(st, g.reg), g.off, g.length)))
 		return eq
 	}
+	intrinsics["bytes.Repeat"] = func(e *Engine, st *State, fr *Frame, args []Value, in *ssa.Call) Value {
+		e.usedIntrinsic("bytes.Repeat")
+		src := args[0].(*SliceVal)
+		cnt := st.sub(args[1].(*Term))
+		if src.reg == nil || !src.length.IsConst() || !cnt.IsConst() || cnt.Val.Sign() < 0 {
+			e.fail("bytes.Repeat with symbolic length or count")
+		}
+		n, c := src.length.Val.Int64(), cnt.Val.Int64()
+		at := types.NewArray(src.elem, n*c)
+		r := e.newRegion(e.freshName("repeat"), at, true)
+		r.created = st.epoch + 1
+		for j := int64(0); j < c; j++ {
+			for i := int64(0); i < n; i++ {
+				st.mem.cells[pathKey(r.id, []int{int(j*n + i)})] = e.sliceElem(st, src, mkInt64(i))
+			}
+		}
+		l := mkInt64(n * c)
+		return &SliceVal{reg: r, off: mkInt64(0), length: l, capacity: l, elem: src.elem, backingN: n * c}
+	}
 	intrinsics["bytes.Clone"] = func(e *Engine, st *State, fr *Frame, args []Value, in *ssa.Call) Value {
 		e.usedIntrinsic("bytes.Clone")
 		src := args[0].(*SliceVal)
@@ -422,7 +442,7 @@ func minTerm(a, b *Term) *Term {
 }
 
 func (e *Engine) copySlices(st *State, fr *Frame, dst, src *SliceVal) Value {
-	n := minTerm(dst.length, src.length)
+	n := st.sub(minTerm(st.sub(dst.length), st.sub(src.length)))
 	if n.IsConst() {
 		k := n.Val.Int64()
 		// read all first (overlap-safe)
@@ -486,7 +506,15 @@ func (e *Engine) sliceElemStoreAny(st *State, s *SliceVal, k *Term, v Value) {
 
 func (e *Engine) appendSlices(st *State, fr *Frame, s, add *SliceVal) Value {
 	newLen := mkAdd(s.length, add.length)
-	fits := mkLe(newLen, s.capacity)
+	fits := st.sub(mkLe(newLen, s.capacity))
+	if !fits.IsConst() && s.reg != nil {
+		// decide the capacity relation from the path condition
+		if knownTrue(st, fits) || e.unsatisfiable(append(append([]*Term{}, st.hyps...), mkNot(fits))) {
+			fits = tTrue
+		} else if knownFalse(st, fits) || e.unsatisfiable(append(append([]*Term{}, st.hyps...), fits)) {
+			fits = tFalse
+		}
+	}
 	if s.reg != nil && fits.IsConst() && fits.Val.Sign() != 0 {
 		// in place
 		if !add.length.IsConst() {
